@@ -16,7 +16,11 @@ func (st *programState) evaluateExpr(expr parser.ValueExpr) (Value, InterpreterE
 	case *parser.StringLiteral:
 		return String(expr.String), nil
 	case *parser.RatioLiteral:
-		return Portion(*expr.ToRatio()), nil
+		rat, ok := expr.ToRatio()
+		if !ok {
+			return nil, DivideByZero{Range: expr.Range, Numerator: expr.Numerator}
+		}
+		return Portion(*rat), nil
 	case *parser.NumberLiteral:
 		return MonetaryInt(*big.NewInt(int64(expr.Number))), nil
 	case *parser.MonetaryLiteral:
